@@ -153,3 +153,9 @@ def oracle(c):
         for m in D.bad_markers(o):
             out.append(("runtime-" + m.strip("!("), {"impl": (o or "")[:300]}))
     return out
+
+
+def search(rng, corr_failures, run_cases):
+    import sys
+
+    return D.search_decode(sys.modules[__name__], rng, corr_failures, run_cases)
